@@ -1,6 +1,6 @@
 (* C05 - re-applying a state task is a no-op reported as unchanged. Pinned statements only. *)
 From Coq Require Import List String Ascii Bool NArith.
-From RashV Require Import Fs Octal StateMods Pacman StateSpec TemplatePacmanProofs StateProofs.
+From RashV Require Import Fs Octal StateMods Pacman StateSpec SeqSpec TemplatePacmanProofs StateProofs Frame Sequences.
 Import ListNotations.
 
 (* whatever the first successful run did, the identical task applied to the world it left
@@ -29,3 +29,27 @@ Theorem C05_pass_of_stable_tasks_is_noop : forall e ts w l,
   Forall (fun t => stable e t w) ts ->
   run_all e ts {| sw := w; slog := l |} = (map (fun _ => ROk false) ts, {| sw := w; slog := l |}).
 Proof. exact pass_of_stable_tasks_is_noop. Qed.
+
+(* a task's outcome depends only on the nodes at the prefixes of its target and source (none of them a
+   symbolic link): stability carries over to every world that agrees with the current one there *)
+Theorem C05_stability_depends_only_on_what_the_task_reads : forall e t w w',
+  stable e t w -> agree_b t w w' = true -> nolink_b t w = true -> stable e t w'.
+Proof. exact stable_transfers. Qed.
+
+(* "applying a whole sequence twice converges after one pass": whenever no later task of the first pass
+   disturbs what an earlier one reads (noninterf_b, decidable and evaluated by the oracle on every
+   generated sequence), the second pass reports ok for every task and leaves world and log untouched *)
+Theorem C05_second_pass_over_a_sequence_is_a_noop : forall e ts s0 l,
+  noninterf_b e ts s0 = true ->
+  let w1 := sw (snd (run_all e ts s0)) in
+  run_all e ts {| sw := w1; slog := l |} = (map (fun _ => ROk false) ts, {| sw := w1; slog := l |}).
+Proof. exact second_pass_is_noop. Qed.
+
+(* non-vacuity (three tasks sharing ancestors) and the reason for the condition (A-then-B on one path flips) *)
+Theorem C05_sequence_condition_is_met_and_is_needed :
+  (noninterf_b seq_env seq_ok {| sw := seq_w0; slog := [] |} = true
+   /\ fst (run_all seq_env seq_ok {| sw := seq_w0; slog := [] |}) = [ROk true; ROk true; ROk true])
+  /\ (noninterf_b seq_env seq_bad {| sw := seq_w0; slog := [] |} = false
+      /\ let s1 := snd (run_all seq_env seq_bad {| sw := seq_w0; slog := [] |}) in
+         fst (run_all seq_env seq_bad {| sw := sw s1; slog := [] |}) = [ROk true; ROk true]).
+Proof. exact (conj seq_ok_satisfies seq_bad_is_excluded_and_really_flips). Qed.
